@@ -36,7 +36,7 @@ func checkC13(c *Ctx, r *Report) {
 	r.rule("C13.O1", "every call of a gin registration method in the module has a receiver that traces to a protected group", 5)
 	r.rule("C13.O2", "every group reaching a registration is protected by a dominating Use(auth middleware), by Group(prefix, auth middleware) or by its parent", 1)
 	r.rule("C13.O3", "an auth middleware calls (*RouterAuthorizationCheck).Check with its own *gin.Context on every path, and never calls Next before", 1)
-	r.rule("C13.O4", "in Check, every path on the err != nil edge passes c.Abort() and a response with constant status 401", 2)
+	r.rule("C13.O4", "in Check, every path passes the call of AuthorizationCheck with the request's token, and every path on its err != nil edge passes c.Abort() and a response with constant status 401", 3)
 	r.rule("C13.O5", "every implementation of NFContext.AuthorizationCheck returns nil only on the !OAuth2Required edge, otherwise the result of oauth.VerifyOAuth(token, ...)", 2)
 	r.rule("C13.O7", "the flag AuthorizationCheck reads is assigned from the NRF's declaration (customInfo.oauth2 of the registration answer)", 1)
 	r.rule("C13.O8", "the declaration is learnt by every registration that can be a process's first: every success exit of the registration function assigns the flag, or the instance id it registers under is a random UUID drawn at start", 1)
@@ -463,6 +463,22 @@ func (x *c13) checkO4() {
 		}
 	}
 	r.check(tokOK, "C13.O4", key+"|token", posOf(c, authCall), "token passed to AuthorizationCheck is the request's Authorization header", "token passed to AuthorizationCheck is not the request's Authorization header")
+	// every way through Check asks: no return is reachable without the verification of this
+	// request's token (a remembered verdict outlives the key it was given under)
+	{
+		avoid := map[*ssa.BasicBlock]bool{authCall.Block(): true}
+		free := reachableFrom(f.Blocks[0], nil, nil, avoid)
+		bad := ""
+		for _, b := range f.Blocks {
+			if !free[b] || len(b.Instrs) == 0 {
+				continue
+			}
+			if ret, ok := b.Instrs[len(b.Instrs)-1].(*ssa.Return); ok {
+				bad = posOf(c, ret)
+			}
+		}
+		r.check(bad == "", "C13.O4", key+"|always asked", posOf(c, authCall), "every path through Check passes the call of AuthorizationCheck", "Check can return at "+bad+" without having called AuthorizationCheck for this request: the handler runs on a verdict that was not obtained for this request with the NRF key of this moment (a remembered verdict still admits a token whose signing key has been replaced)")
+	}
 	// find If on err != nil
 	found := false
 	for _, b := range f.Blocks {
